@@ -96,10 +96,10 @@ async def drive(tier: str, seed: int, corpus: E.Corpus, exp: R.Export | None, in
     for mi_, (sd, pa, s, m) in enumerate(models):
         p = E.Probe(s)
         mi = corpus.model_index(m)
-        for sess in pick_sessions(m, 2 if quick else 5):
+        for sess in pick_sessions(m, 2 if quick else 3):
             items: list[C.Item] = list(C.structural_family(m, sess, rnd))
             items += C.model_aware_valid(m, sess, rnd, 60 if quick else 400)
-            items += C.sampled23(rnd, 1 if quick else 6)
+            items += C.sampled23(rnd, 1 if quick else 4)
             items += C.structured_valid(rnd, 100 if quick else 600)
             if not quick or mi_ % 3 == 0:
                 items += C.sf256(m, sess)
@@ -108,7 +108,7 @@ async def drive(tier: str, seed: int, corpus: E.Corpus, exp: R.Export | None, in
             corpus.add(m=mi, B=E.ALL, mode="E", steps=steps, meta=meta(sd, pa, "families", home=sess))
         # "disabling one behaviour": everything on / exactly one off x the full structural family
         for B in one_off()[1:]:
-            for sess in pick_sessions(m, 0 if quick else 3):
+            for sess in pick_sessions(m, 0 if quick else 2):
                 if sess != 1 and "sc" not in B:
                     continue
                 p.fresh(B)
@@ -116,27 +116,27 @@ async def drive(tier: str, seed: int, corpus: E.Corpus, exp: R.Export | None, in
                 corpus.add(m=mi, B=B, mode="E", steps=steps, meta=meta(sd, pa, "one-off", home=sess))
 
     # -- exhaustive: every service id x 0..1 payload bytes
-    sweep_models = [x for x in models if x[1] == "mandatory"][: (1 if quick else 3)]
-    sweep_models += [] if quick else [x for x in models if x[1] == "dense"][:2]
+    sweep_models = [x for x in models if x[1] == "mandatory"][: (1 if quick else 2)]
+    sweep_models += [] if quick else [x for x in models if x[1] == "dense"][:1]
     n_sweep = 0
     for sd, pa, s, m in sweep_models:
         p = E.Probe(s)
         mi = corpus.model_index(m)
-        for sess in pick_sessions(m, 0 if quick else 2):
+        for sess in pick_sessions(m, 0 if quick else 1):
             p.fresh(E.ALL)
             steps = await C.run_history(p, m, list(C.sweep01()), home=sess)
             n_sweep += len(steps)
             corpus.add(m=mi, B=E.ALL, mode="E", steps=steps, meta=meta(sd, pa, "sweep01", home=sess))
     info["sweep01"] = {"models": [(sd, pa) for sd, pa, _s, _m in sweep_models], "steps": n_sweep,
-                       "sessions_per_model": 1 if quick else 3}
+                       "sessions_per_model": 1 if quick else 2}
 
     # -- all 2^9 switch subsets x reduced structural family
-    sub_models = [x for x in models if x[1] == "mandatory"][: (1 if quick else 3)] + \
-                 ([] if quick else [x for x in models if x[1] != "mandatory"][:3])
+    sub_models = [x for x in models if x[1] == "mandatory"][: (1 if quick else 2)] + \
+                 ([] if quick else [x for x in models if x[1] == "dense"][:1] + [x for x in models if x[1] == "default"][:1])
     for sd, pa, s, m in sub_models:
         p = E.Probe(s)
         mi = corpus.model_index(m)
-        for sess in pick_sessions(m, 1 if quick else 2):
+        for sess in pick_sessions(m, 1):
             fam = C.short_family(m, sess)
             for B in subsets():
                 if sess != 1 and "sc" not in B:
@@ -152,7 +152,7 @@ async def drive(tier: str, seed: int, corpus: E.Corpus, exp: R.Export | None, in
         p = E.Probe(s)
         mi = corpus.model_index(m)
         fam = C.structural_family(m, 1, rnd)
-        for _ in range(40 if quick else 1500):
+        for _ in range(40 if quick else 600):
             B = rnd.choice(allB)
             p.fresh(B)
             steps = await C.run_history(p, m, rnd.sample(fam, 3))
@@ -171,7 +171,7 @@ async def drive(tier: str, seed: int, corpus: E.Corpus, exp: R.Export | None, in
 
     # -- spec -> code
     if exp is not None:
-        info["spec_to_code"] = await R.replay_export(exp, corpus, stride=1)
+        info["spec_to_code"] = await R.replay_export(exp, corpus, stride=1 if quick else 2)
 
 
 async def drive_mutants(seed: int, corpus: E.Corpus) -> dict[str, list[dict[str, Any]]]:
@@ -244,7 +244,9 @@ def run(tier: str, seed: int) -> Report:
                                   parse_prints=False)
     # ---- 2. spec -> code cases
     expcfg = "MC_VEcu_export.cfg" if quick else "MC_VEcu_exportall.cfg"
-    eres = tlc.run_tlc("MC_VEcu", expcfg, timeout=3000, workers=1, parse_prints=False)
+    # one short PrintT line per transition (println is atomic), so several workers are safe;
+    # a garbled line would be a Machinery failure in Export, never a silent loss
+    eres = tlc.run_tlc("MC_VEcu", expcfg, timeout=3000, workers=1 if quick else 4, parse_prints=False)
     rep.add_tlc(eres, expcfg + " (transition export)")
     if not eres.ok:
         raise Machinery(f"export run violated {eres.violated}")
